@@ -204,25 +204,30 @@ class XMLWriter:
                                 full XSL stylesheet, but has to start and end with the
                                 tag: '<xsl:template match="odML">[custom]</xsl:template>'.
         """
-        # calculate the data before opening the file in case we get any exception
+        # calculate the complete file content before opening the file in case we get
+        # any exception: a failed save must not create or truncate the file.
         data = str(self)
 
-        with open(filename, "w", encoding = "utf-8") as file:
-            file.write("%s\n" % XML_HEADER)
-            if not local_style and not custom_template:
-                file.write("%s\n" % EXTERNAL_STYLE_HEADER)
-            else:
-                file.write("%s\n" % INFILE_STYLE_HEADER)
+        header = "%s\n" % XML_HEADER
+        if not local_style and not custom_template:
+            header += "%s\n" % EXTERNAL_STYLE_HEADER
+        else:
+            header += "%s\n" % INFILE_STYLE_HEADER
 
-                template = INFILE_TEMPLATE_WRAPPER % INFILE_STYLE_TEMPLATE
-                if custom_template:
-                    template = INFILE_TEMPLATE_WRAPPER % custom_template
+            template = INFILE_TEMPLATE_WRAPPER % INFILE_STYLE_TEMPLATE
+            if custom_template:
+                template = INFILE_TEMPLATE_WRAPPER % custom_template
 
-                replace = """<odML version="%s">""" % FORMAT_VERSION
-                replacement = """<odML version="%s">\n%s\n""" % (FORMAT_VERSION, template)
-                data = data.replace(replace, replacement)
+            replace = """<odML version="%s">""" % FORMAT_VERSION
+            replacement = """<odML version="%s">\n%s\n""" % (FORMAT_VERSION, template)
+            data = data.replace(replace, replacement)
 
-            file.write(data)
+        content = header + data
+        # text the file encoding cannot hold fails here, not after opening the file
+        content.encode("utf-8")
+
+        with open(filename, "w", encoding="utf-8") as file:
+            file.write(content)
 
 
 def load(filename):
